@@ -301,6 +301,31 @@ pub fn check_source(s: &str, obs: &mut Obs, require_clean: bool) {
     }
 }
 
+/// The same program with comments between some of its tokens (the analysis reads typed accessors
+/// that must not be confused by trivia inside an expression or a statement).
+fn with_comments(r: &mut Rng, src: &str) -> String {
+    if !r.chance(1, 3) {
+        return src.to_string();
+    }
+    let mut out = String::new();
+    for line in src.split_inclusive('\n') {
+        let t = line.trim_start();
+        // line-oriented lexemes keep their text verbatim; a quoted string is not split
+        if t.starts_with("pragma") || t.starts_with('#') || t.starts_with('@') || t.starts_with("//") || line.contains('"') || line.contains('\'') {
+            out.push_str(line);
+            continue;
+        }
+        for c in line.chars() {
+            if c == ' ' && r.chance(1, 3) {
+                out.push_str(*r.pick(&[" /* c */ ", " /**/ ", " // c\n ", "/* left */ ", " /* right */"]));
+            } else {
+                out.push(c);
+            }
+        }
+    }
+    out
+}
+
 impl Property for C03 {
     fn id(&self) -> &'static str {
         "C03"
@@ -312,11 +337,13 @@ impl Property for C03 {
         let mut v = Vec::new();
         v.push(Stream::new("fault-injected-programs", tier.pick(60_000, 3_000_000), false, move |i| {
             let mut r = Rng::new(mix(&[seed, 0xC03, 1, i]));
-            format!("s:{}", programs::faulty_program(&mut r))
+            let p = programs::faulty_program(&mut r);
+            format!("s:{}", with_comments(&mut r, &p))
         }));
         v.push(Stream::new("wider-grammar-programs", tier.pick(40_000, 2_000_000), false, move |i| {
             let mut r = Rng::new(mix(&[seed, 0xC03, 2, i]));
-            format!("s:{}", programs::wide_program(&mut r))
+            let p = programs::wide_program(&mut r);
+            format!("s:{}", with_comments(&mut r, &p))
         }));
         v.push(Stream::new("seed-programs", strings::seed_programs().len() as u64, true, |i| format!("s:{}", strings::seed_programs()[i as usize])));
         for st in common::string_streams(0xC03, tier, seed, tier.pick(1.0, 0.5)) {
